@@ -63,6 +63,24 @@ func waitScenario(w *bufio.Writer, name string, timeoutMs uint64) {
 				mu.Unlock()
 			}()
 			machine.WaitTimeout(cond, timeoutMs)
+		case "two-waiters", "two-timeouts": // another goroutine is already queued on the same cond (a plain Wait / a much longer timeout); nobody signals
+			mu.Unlock()
+			ready := make(chan struct{})
+			go func() {
+				mu.Lock()
+				close(ready)
+				if name == "two-waiters" {
+					cond.Wait()
+				} else {
+					machine.WaitTimeout(cond, 20*timeoutMs+2000)
+				}
+				mu.Unlock()
+			}()
+			<-ready
+			mu.Lock() // succeeds once the other goroutine is queued on the cond and has released the lock
+			defer func() { mu.Lock(); cond.Broadcast(); mu.Unlock() }()
+			start = time.Now()
+			machine.WaitTimeout(cond, timeoutMs)
 		case "stale-helper": // a timed-out wait, then a late signal, then a second timed-out wait
 			machine.WaitTimeout(cond, timeoutMs)
 			mu.Unlock()
@@ -173,5 +191,9 @@ func main() {
 	}
 	for _, t := range []uint64{0, 5, 20} {
 		waitScenario(w, "stale-helper", t)
+	}
+	for _, t := range []uint64{0, 10, 50} {
+		waitScenario(w, "two-waiters", t)
+		waitScenario(w, "two-timeouts", t)
 	}
 }
